@@ -19,7 +19,7 @@ Init ==
         /\ bk \in ks                                   \* the body carries the marker of a declared entry
         /\ case = [part |-> "pick", keys |-> SetToSortSeq(ks, LAMBDA a, b : TRUE), status |-> st, method |-> m,
                    includeStatus |-> inc, bodyKey |-> bk]
-   \/ \E hd \in {"none", "intReq", "intOpt", "arrOpt", "arrMax1"}, hv \in {"absent", "5", "abc", "1,2"},
+   \/ \E hd \in {"none", "intReq", "intOpt", "arrOpt", "arrMax1", "contentReq", "contentOpt"}, hv \in {"absent", "5", "abc", "1,2"},
          d \in {"none", "json", "jsonNoSchema", "text", "wild", "jsonAndText"}, ct \in CTs,
          b \in JsonBodies \cup TextBodies, xb \in BOOLEAN, xw \in BOOLEAN, mu \in BOOLEAN :
         /\ (hd = "none" => hv = "absent")
